@@ -137,9 +137,15 @@ def _ood_query(case):
     st = sp['spike_templates']
     names = ['params.py', 'spike_times.npy', 'spike_templates.npy', 'spike_clusters.npy', 'channel_positions.npy',
              'templates.npy', 'amplitudes.npy', 'channel_map.npy'] + sorted(sp.get('extra_npy') or {})
+    if sp.get('alf'):
+        # ALF-named source: no spike_templates.npy / spike_clusters.npy under their KS names (the loader writes
+        # spike_clusters.npy itself when the dataset has no cluster file)
+        names = ['params.py'] + sorted(D.ALF_NAMES[k] for k in D.ALF_NAMES if sp.get(k) is not None) + \
+            ([] if sp.get('spike_clusters') is not None else ['spike_clusters.npy']) + sorted(sp.get('extra_npy') or {})
     return dict(op='export', rate=DC.frac(sp['sample_rate']), n_amplitudes=len(st), samples=sp['spike_samples'],
                 sc=sp.get('spike_clusters') or st, st=st, n_templates=len(sp['templates']), channel_map=sp['channel_map'],
-                channel_probes=sp.get('channel_probes') or [0] * sp['n_channels'], features=sp.get('pc_features') is not None,
+                channel_probes=sp.get('channel_probes') or [0] * sp['n_channels'],
+                **({'feat_rows': len(sp['pc_features'])} if sp.get('pc_features') is not None else {}),
                 same_dir=False, force=False, label=case.get('label', ''), has_traces=has_traces(case),
                 src=[dict(name=n, tag='x', rows=2) for n in names])
 
@@ -156,7 +162,10 @@ def model_query(case, impl_res):
     ls = ok['listings']
     view = dict(rate=DC.frac(sm['sample_rate']), n_amplitudes=len(sm['amplitudes']),
                 sc=sm['spike_clusters'], st=sm['spike_templates'], n_templates=sm['n_templates'],
-                channel_map=sm['channel_mapping'], channel_probes=sm['channel_probes'], features=bool(sm['has_features']))
+                channel_map=sm['channel_mapping'], channel_probes=sm['channel_probes'])
+    if sm.get('feat_rows') is not None:
+        # rows of the feature store of the source model (fewer than spikes: pc_feature_spike_ids layout)
+        view['feat_rows'] = sm['feat_rows']
     sec = ((case.get('spec') or {}).get('extra_npy') or {}).get('spikes.times.npy')
     if sec is not None:
         # the source gives its spike times in SECONDS (spikes.times.npy, no spike_times.npy): the times are an input
@@ -295,6 +304,12 @@ def judge(case, impl_res, ans):
     for name, rows in mod['table']:
         if have.get(name) != rows:
             return 'CORR: table expects %s with %d rows, output has %s' % (name, rows, have.get(name))
+    if not case.get('probes') and not res[-1]['ordered']:
+        # a SINGLE dataset whose probe labels are not non-decreasing along the channel map: the reloaded channel map holds
+        # NEGATIVE raw indices (C14 model of make_channel_objects). Not accepted silently: reported under a narrow class
+        # (open finding) after every other clause was judged
+        return ('SPEC: channel map of the reloaded model %s holds negative raw indices: probe labels %s of the source are not in '
+                'channel-map order %s (single dataset)' % (ok['fresh']['channel_mapping'], sm['channel_probes'], sm['channel_mapping']))
     return None
 
 
@@ -329,15 +344,30 @@ def tally(rep, case, impl_res, ans):
     rep.count('label:%s' % bool(case.get('label')))
     if not case.get('probes'):
         s = case['spec']
+        r_ = ((ans.get('ok') or {}).get('res') or [{}])[-1]
+        if 'ordered' in r_ and len(set(s.get('channel_probes') or [])) > 1:
+            rep.count('reloaded channel map of a single dataset with several probes: ' + (
+                'labels in channel-map order, judged = per-probe re-expression' if r_['ordered'] else
+                'labels NOT in channel-map order -> negative raw index, reported as open finding (not accepted)'))
+        if s.get('amplitudes') is None:
+            rep.count('no amplitudes.npy')
         rep.count('curated:%s' % (s.get('spike_clusters') is not None))
         rep.count('raw:%s' % bool(s.get('raw')))
-        rep.count('features:%s' % (s.get('pc_features') is not None))
+        rep.count('features:%s' % ('subset of the spikes' if s.get('pc_feature_spike_ids') is not None else s.get('pc_features') is not None))
         rep.count('vec2d:%s' % bool(s.get('vec2d')))
 
 
 def classify(case, impl_res, ans, why):
-    return dict(kind=why.split(':')[0], what=why.split(':')[1].strip()[:40], merged=bool(case.get('probes')),
-                label=bool(case.get('label')), raised=impl_res.get('raised'), where=impl_res.get('where'))
+    if why.startswith('SPEC: channel map of the reloaded model') and 'not in channel-map order' in why:
+        return dict(kind='SPEC', site='make_channel_objects', probe_labels='not in channel-map order',
+                    observed='negative raw index', merged=False)
+    cls = dict(kind=why.split(':')[0], what=why.split(':')[1].strip()[:40], merged=bool(case.get('probes')),
+               label=bool(case.get('label')), raised=impl_res.get('raised'), where=impl_res.get('where'))
+    if case.get('spec') and case['spec'].get('amplitudes') is None:
+        # a dataset WITHOUT amplitudes.npy (optional for the loader): narrow class for the open finding
+        cls.update(no_amplitudes=True, where_file=(impl_res.get('where') or '').split(':')[0])
+        del cls['where']
+    return cls
 
 
 def _n_clusters(spec):
@@ -401,8 +431,21 @@ def gen(tier, rng):
             spec['extra_npy'] = dict(spec.get('extra_npy') or {}, **extra)
         if i % 8 == 6:
             _seconds_layout(spec, i)
+        if i % 16 == 4:
+            # features stored for a subset of the spikes (pc_feature_spike_ids.npy): get_depths() gives nothing
+            A.subset_features(rng, spec)
         # labels incl. ones that occur inside ALF file names or look like extensions
         label = ['', 'probe00', '', 'a', 'raw', '', 'amps', 'npy', 'spikes', 'x.y', 'clusters'][i % 11]
+        if i == 57:
+            # no amplitudes.npy (optional for the loader): spikes.amps / templates.amps / clusters.amps have no defined value
+            spec['amplitudes'] = None
+        if i == 76:
+            # OUTSIDE the quantifier (tallied, never an alarm): a source that is ALREADY ALF-named (spikes.clusters.npy ...);
+            # convert() documents "from KS/phy format", its rename table is keyed by the KS names
+            spec['alf'] = True
+            spec.pop('extra_npy', None)
+            yield dict(p=PID, spec=spec, factor=1, label='', rs=i, ood='ALF-named source')
+            continue
         if i in (33, 211):
             # OUTSIDE the quantifier (tallied, never an alarm): a source that already holds an ALF cluster table,
             # a label with a path separator
